@@ -1,4 +1,5 @@
 import DispensoVerif.Proofs.Arena
+import DispensoVerif.Proofs.ArenaTables
 /-
 C37 — `dispenso::ConcurrentObjectArena<T>`: a grow-only segmented array (a table of buffers of
 `kBufferSize = B` elements each) whose `grow_by(d)` may be called concurrently.
@@ -499,4 +500,67 @@ example : ((step (runOps St.init [.mk 3 0]) (.growBy 0 5)).2.map fun o => (o.ret
 
 end Seq
 
+end Dispenso.Arena
+
+/-! ### buffer-pointer tables and lock-free readers (`Model/ArenaTables.lean`) -/
+namespace Dispenso.Arena
+namespace Tables
+open Dispenso.ArenaTables
+
+/-- **C37 (references stay valid across growth, lock-free readers).** In every history of `allocateBuffer`,
+reader loads, reader index steps and a destructor call that respects its contract, no step ever indexes
+a freed table: a reader suspended between the two halves of `operator[]` for any number of table
+re-allocations still reads live memory. -/
+theorem C37_tables_no_uaf (ops : List Op) : Out.uaf ∉ (run {} ops).2 := by
+  suffices h : ∀ s, Inv s → Out.uaf ∉ (run s ops).2 from h _ inv_init
+  induction ops with
+  | nil => intro s _; simp [run]
+  | cons o os ih =>
+    intro s hs
+    simp only [run, List.mem_cons, not_or]
+    refine ⟨?_, ih _ (step_inv s o hs)⟩
+    cases o with
+    | alloc =>
+      by_cases ha : s.alive = true
+      · by_cases hu : s.used < s.size <;> simp [step, ha, hu]
+      · simp [step, ha]
+    | load r =>
+      by_cases hc : (!s.alive || decide (s.tables = 0)) = true <;> simp [step, hc]
+    | destroy =>
+      by_cases hc : (!s.alive || !s.snaps.isEmpty) = true <;> simp [step, hc]
+    | index r i =>
+      cases hsn : snapOf s r with
+      | none => simp [step, hsn]
+      | some p =>
+        obtain ⟨id, n⟩ := p
+        by_cases hi : i < n
+        · obtain ⟨h1, h2, _, _, _⟩ := hs
+          have hal : s.alive = true := by
+            cases ha : s.alive
+            · have := h2 ha; simp [snapOf, this] at hsn
+            · rfl
+          simp [step, hsn, hi, h1 hal]
+        · simp [step, hsn, hi]
+
+/-- **Every table ever published is current or retained**: while the arena is alive, `deleteLater_` holds
+exactly one table per re-allocation (the quantity the white-box tie reads from the implementation). -/
+theorem C37_tables_retained (ops : List Op) (h : (run {} ops).1.alive = true) :
+    (run {} ops).1.freed = [] ∧
+    ((run {} ops).1.retired.length + 1 = (run {} ops).1.tables ∨ (run {} ops).1.tables = 0) := by
+  have hi := run_inv {} ops inv_init
+  refine ⟨hi.1 h, ?_⟩
+  rcases hi.2.2.1 h with h' | ⟨h', _⟩
+  · exact Or.inl h'
+  · exact Or.inr h'
+
+/-- non-vacuity: a reader suspended across two table re-allocations (capacity 2 → 4 → 8) indexes live memory,
+and the destructor then frees all three tables -/
+example : (run {} [.alloc, .load 7, .alloc, .alloc, .alloc, .alloc, .index 7 0, .destroy]).2
+    = [.table 2 1 0, .ok, .table 2 2 0, .table 4 3 1, .table 4 4 1, .table 8 5 2, .ok, .ok] := by decide
+example : (run {} [.alloc, .alloc, .alloc, .destroy]).1.freed = [1, 0] := by decide
+/-- the model can express the failure: were a retired table freed at once, the index step would answer `uaf` -/
+example : (step { tables := 2, size := 4, used := 3, retired := [], freed := [0], snaps := [(7, 0, 1)] } (.index 7 0)).2
+    = .uaf := by decide
+
+end Tables
 end Dispenso.Arena
